@@ -172,6 +172,20 @@ def valid_labels(vn, lab):
     return o.ok
 
 
+_NORMAL = {}
+
+
+def normal_form(vn, lab):
+    """The labels an isotherm CREATED with these labels carries (the constructor's own spelling of the representation): labels left by a
+    conversion must be that spelling, or two isotherms in the same representation would carry different labels (and different ids)."""
+    k = (vn, lab)
+    if k not in _NORMAL:
+        from pygaps.core.baseisotherm import BaseIsotherm
+        o = core.call(BaseIsotherm, material='x', adsorbate=VARIANTS[vn]['ads'], temperature=1.0, **dict(zip(KEYS, lab)))
+        _NORMAL[k] = getlab(o.value) if o.ok else lab
+    return _NORMAL[k]
+
+
 def refdata(vn, init_lab, lab):
     """Original data of the variant converted directly to the labelled representation."""
     c, m, _ = setup_variant(vn)
@@ -227,6 +241,9 @@ def unit_test(vn, init_lab, lab, p, l, op, kw, kind):
                   "assert u['loading_basis'] in ('fraction', 'percent') or u['loading_unit'] is not None, 'loading unit label erased'",
                   "assert u['material_unit'] is not None, 'material unit label erased'",
                   f"BaseIsotherm(material='m', adsorbate={v['ads']!r}, temperature=1, **u)"]
+    elif kind == 'labels-not-normal':
+        lines += [f"made = BaseIsotherm(material='m', adsorbate={v['ads']!r}, temperature=1, **iso.units)",
+                  "assert made.units == iso.units, f'labels after the conversion {iso.units} differ from those of an isotherm created with them {made.units}'"]
     elif kind == 'refused-but-changed':
         lines += ["assert raised is not None",
                   "assert iso.units == before[0] and iso.data_raw.equals(before[1]), 'a refused conversion changed the isotherm'"]
@@ -331,6 +348,9 @@ def expand_factory(space_name, vn):
             # validity (1)
             if not valid_labels(vn, nl):
                 report('invalid-labels', op, kw, f'labels {nl} would be rejected by the constructor', 'valid labels', nl)
+                continue
+            if normal_form(vn, nl) != nl:
+                report('labels-not-normal', op, kw, f'labels {nl} are not the labels of an isotherm created in that representation ({normal_form(vn, nl)})', normal_form(vn, nl), nl)
                 continue
             # consistency (2)
             try:
